@@ -1,18 +1,5 @@
 #!/bin/bash
-# Re-run every kept seeded change against the checks recorded in its meta.json, each in its own scratch worktree (MZSA_ROOT may point at a
-# snapshot of /verif).  A seed is fine when every recorded check reports a violation with (one of) the recorded rule(s).
-ROOT=${MZSA_ROOT:-/verif}
-fail=0
-for d in /verif/seeded/*/; do
-  n=$(basename $d)
-  checks=$(python3 -c "import json;print(' '.join(sorted({c.split(':')[0] for c in json.load(open('$d/meta.json'))['verif']['caught_by']})))")
-  [ -n "$checks" ] || { echo "$n: meta.json has no verif.caught_by"; fail=1; continue; }
-  out=$(MZSA_ROOT=$ROOT /verif/selftest/seed_par.sh $n $checks)
-  bad=""
-  for cb in $(python3 -c "import json;print(' '.join(json.load(open('$d/meta.json'))['verif']['caught_by']))"); do
-    q=${cb%%:*}; rule=${cb#*:}
-    echo "$out" | grep -q "$q:[^ ]*$rule," || bad="$bad $cb"
-  done
-  if [ -z "$bad" ]; then echo "$n ok: $out"; else echo "$n MISSED$bad :: $out"; fail=1; fi
-done
-exit $fail
+# Re-run every kept seeded change against the checks recorded in its meta.json, each in its own scratch worktree, ${JOBS:-3} seeds at a
+# time (MZSA_ROOT may point at a snapshot of /verif).  Exit 0 iff every seed is reported by every recorded check with a recorded rule.
+ls /verif/seeded | xargs -P ${JOBS:-3} -I{} /verif/selftest/check_seed.sh {} | tee /tmp/run_seeds_par.out
+! grep -q "MISSED\|has no verif" /tmp/run_seeds_par.out
